@@ -37,6 +37,7 @@ type Config struct {
 	DurOn    bool  `json:"dur_on"`
 	TOOR     bool  `json:"toor"`
 	Mode     int   `json:"mode"` // 0 = default
+	Neg      bool  `json:"neg"`  // spell a disabled limit as a negative value instead of 0
 	Seed     int64 `json:"seed"`
 }
 
@@ -238,6 +239,12 @@ func newWorld(cfg *Config) (*world, error) {
 		TimestampOnlyOnRotate: cfg.TOOR, Mode: os.FileMode(cfg.Mode)}
 	if cfg.DurOn {
 		w.fs.MaxDuration = MaxDur
+	} else if cfg.Neg && (cfg.TOOR || cfg.MaxBytes > 0) {
+		// "no age limit" written as -1s (only where the naming scheme does not depend on it)
+		w.fs.MaxDuration = -time.Second
+	}
+	if cfg.Neg && cfg.MaxBytes == 0 {
+		w.fs.MaxBytes = -4 * Unit
 	}
 	return w, nil
 }
